@@ -147,6 +147,8 @@ def inflight(rng):
     pairs = [(i, i + 1) for i in range(n - 1)]
     ops = []
     npay = 0
+    if rng.random() < 0.4:
+        return _inflight_burst(rng, n, x, pairs)
     for _ in range(rng.randrange(1, 4)):
         a = rng.randrange(n)
         b = rng.choice([j for j in range(n) if j != a])
@@ -180,6 +182,48 @@ def inflight(rng):
         ops += _deliveries(rng, dirs, rng.randrange(0, 8))
         if round_ == 0 and rng.random() < 0.5:
             ops.append({"op": "persist_mode", "node": x, "mode": "inprogress"})
+    ops += _wind_down(npay, rng, pairs)
+    return {"cfg": _cfg(rng, n), "ops": ops}
+
+
+def _inflight_burst(rng, n, x, pairs):
+    """SEVERAL writes of one channel are in flight when X's manager is written (a channel stalls after one in-flight
+    update, but preimages keep being handed over: X is the recipient of 2-4 payments over one channel and claims them
+    back to back, or claims while the update of a revocation is in flight); X dies after a PREFIX of them has landed."""
+    dirs = [(a, b) for (a, b) in pairs] + [(b, a) for (a, b) in pairs]
+    ops = []
+    npay = 0
+    srcs = [j for j in range(n) if j != x]
+    mine = []
+    for _ in range(rng.choice([2, 2, 3, 4])):
+        ops.append({"op": "send", "from": rng.choice(srcs) if rng.random() < 0.3 else srcs[0] if x > srcs[0] else srcs[-1], "to": x, "amt": rng.choice(["big", "justabove", "justabove"])})
+        mine.append(npay); npay += 1
+    if rng.random() < 0.4:
+        ops.append({"op": "send", "from": x, "to": rng.choice(srcs), "amt": "big"}); npay += 1
+    ops.append({"op": "deliver_all"})
+    ops.append({"op": "persist_mode", "node": x, "mode": "inprogress"})
+    if rng.random() < 0.4:
+        # something of the peer's is in flight first (its update / revocation), the claims pile up behind it
+        ops.append({"op": "send", "from": rng.choice(srcs), "to": x, "amt": "justabove"}); npay += 1
+        ops += _deliveries(rng, dirs, rng.randrange(1, 5))
+    for k in mine:
+        if rng.random() < 0.9:
+            ops.append({"op": "claim" if rng.random() < 0.85 else "fail", "pay": k})
+        if rng.random() < 0.25:
+            ops += _deliveries(rng, dirs, rng.randrange(1, 3))
+    if rng.random() < 0.3:
+        ops.append({"op": "complete", "node": x, "which": "oldest"})
+    ops.append({"op": "crash", "node": x, "mgr": 0, "mon": rng.choice(["random", "random", "random", "durable", "latest"])})
+    for (a, b) in pairs:
+        ops.append({"op": "reconnect", "a": a, "b": b})
+    ops += _deliveries(rng, dirs, rng.randrange(0, 8))
+    if rng.random() < 0.3:
+        # ... and once more during the recovery
+        ops.append({"op": "persist_mode", "node": x, "mode": "inprogress"})
+        ops += _deliveries(rng, dirs, rng.randrange(1, 6))
+        ops.append({"op": "crash", "node": x, "mgr": 0, "mon": "random"})
+        for (a, b) in pairs:
+            ops.append({"op": "reconnect", "a": a, "b": b})
     ops += _wind_down(npay, rng, pairs)
     return {"cfg": _cfg(rng, n), "ops": ops}
 
